@@ -221,7 +221,7 @@ var guardCalls atomic.Int64
 
 func guard(f func() error) Res {
 	var err error
-	pools.Dirty(guardCalls.Add(1)%64 == 0)
+	pools.Dirty(guardCalls.Add(1)%2048 == 0)
 	site, msg, p := ev.Guard(func() { err = f() })
 	if p {
 		return Res{Panic: ev.PanicClass(msg) + "@" + site}
